@@ -1232,6 +1232,24 @@ pub mod crossbeam_channel {
                 Err(TrySendError::Full(t))
             }
         }
+        /// First half of `select! { send(..) -> .., default => .. }`: one scheduling point, then whether the send
+        /// arm is ready (room in the queue, or disconnected). The second half (`try_send_now`) runs without a
+        /// scheduling point in between, so the pair is atomic like `try_send`.
+        pub fn verif_send_ready(&self) -> bool {
+            rt::switch();
+            let c = self.c.0.borrow();
+            c.receivers == 0 || c.cap.map(|cap| c.q.len() < cap).unwrap_or(true)
+        }
+        pub fn verif_send_now(&self, t: T) -> Result<(), SendError<T>> {
+            let mut c = self.c.0.borrow_mut();
+            if c.receivers == 0 {
+                return Err(SendError(t));
+            }
+            c.q.push_back(t);
+            drop(c);
+            self.c.rewake();
+            Ok(())
+        }
         pub fn len(&self) -> usize {
             self.c.0.borrow().q.len()
         }
@@ -1385,16 +1403,22 @@ pub mod crossbeam_channel {
     }
 
     macro_rules! select {
+        // the message expression is evaluated in the send arm only (as in the real macro), so the default arm may
+        // still use the value it would have sent
         (send($s:expr, $e:expr) -> $r:ident => $a:block $(,)? default => $d:block $(,)?) => {{
-            match $crate::verif_rt::sync::crossbeam_channel::select_send_or_default(&$s, $e) {
-                Some($r) => $a,
-                None => $d,
+            if $s.verif_send_ready() {
+                let $r = $s.verif_send_now($e);
+                $a
+            } else {
+                $d
             }
         }};
         (send($s:expr, $e:expr) -> $r:ident => $a:expr, default => $d:expr $(,)?) => {{
-            match $crate::verif_rt::sync::crossbeam_channel::select_send_or_default(&$s, $e) {
-                Some($r) => $a,
-                None => $d,
+            if $s.verif_send_ready() {
+                let $r = $s.verif_send_now($e);
+                $a
+            } else {
+                $d
             }
         }};
         (send($s:expr, $e:expr) -> $r:ident => $a:block $(,)?) => {{
